@@ -786,8 +786,8 @@ def run(ck):
     for i in range(0, len(pats), 60):
         check_batch(ck, pats[i:i + 60], base_idx=idx + i)
     idx += len(pats)
-    n_seq = 300 if quick else 3000
-    n_par = 300 if quick else 5000
+    n_seq = 220 if quick else 3000
+    n_par = 200 if quick else 5000
     rnd = [gen_scenario(ck.rng) for _ in range(n_seq)]
     for i in range(0, len(rnd), 100):
         check_batch(ck, rnd[i:i + 100], base_idx=idx + i)
